@@ -505,13 +505,17 @@ fn main() {
         (vec![vec!["fetch 7".into(), "invalidate 7".into()], vec!["fetch 7".into()]], false, false),
         (vec![vec!["fetch 7".into(), "advance 1000".into(), "fetch 7".into()], vec!["fetch 7".into()]], true, true),
       ];
+      // `--dfs-only <pi>`: explore only that program in this process, with the whole budget (a process leaks the
+      // janitor thread of every cache it built, so long explorations are split over processes)
+      let dfs_only: Option<usize> = extra.iter().find(|e| e.0 == "dfs-only").and_then(|e| e.1.parse().ok());
       for (pi, (ps, grace, ttl)) in fixed.iter().enumerate() {
+        if dfs_only.map_or(false, |o| o != pi) { continue; }
         let mut total = 0usize;
         let mut stack: Vec<Vec<usize>> = vec![vec![]];
         let mut runs = 0usize;
         let mut complete = true;
         while let Some(prefix) = stack.pop() {
-          if total >= dfs_budget / fixed.len() { complete = false; break; }
+          if total >= (if dfs_only.is_some() { dfs_budget } else { dfs_budget / fixed.len() }) { complete = false; break; }
           let o = run_case(&format!("d{pi}.{runs}"), ps, *grace, *ttl, Strategy::Prefix(prefix.clone()), "dfs");
           runs += 1; total += 1;
           // the decisions actually taken: recover from the transcript's S line
